@@ -348,39 +348,52 @@ func c15Run(r *tr.Run, cs c15Case) {
 	// buses
 	pub := scripted.NewPub("capture")
 	topicOf := func(name string) string { return "topic-" + name }
+	hookMode := "none" // none | mark | fail: what the OnSend / OnPublish hook of the bus does with the message
+	hook := func(msg *message.Message) error {
+		switch hookMode {
+		case "mark":
+			msg.Metadata.Set("hooked", "1")
+		case "fail":
+			return errors.New("scripted hook failure")
+		}
+		return nil
+	}
 	cb, e1 := cqrs.NewCommandBusWithConfig(pub, cqrs.CommandBusConfig{GeneratePublishTopic: func(p cqrs.CommandBusGeneratePublishTopicParams) (string, error) {
 		return topicOf(p.CommandName) + "/" + c15Shard(p.Command), nil
-	}, Marshaler: m})
+	}, Marshaler: m, OnSend: func(p cqrs.CommandBusOnSendParams) error { return hook(p.Message) }})
 	eb, e2 := cqrs.NewEventBusWithConfig(pub, cqrs.EventBusConfig{GeneratePublishTopic: func(p cqrs.GenerateEventPublishTopicParams) (string, error) {
 		return topicOf(p.EventName) + "/" + c15Shard(p.Event), nil
-	}, Marshaler: m})
+	}, Marshaler: m, OnPublish: func(p cqrs.OnEventSendParams) error { return hook(p.Message) }})
 	if e1 != nil || e2 != nil {
 		r.Emit("error", "what", "bus construction")
 		return
 	}
+	type c15CtxKey struct{}
 	for t := 1; t <= 3; t++ {
 		for which := 0; which < 6; which++ {
 			v := c15Value(cs, t, 10+t+7*(which/2)) // several values of each type: the topic is generated per message
+			hookMode = []string{"none", "mark", "fail"}[(t+which/2)%3]
 			before := len(pub.Calls())
+			sendCtx := context.WithValue(context.Background(), c15CtxKey{}, which)
 			var e error
 			if which%2 == 0 {
-				e = cb.Send(context.Background(), v)
+				e = cb.Send(sendCtx, v)
 			} else {
-				e = eb.Publish(context.Background(), v)
-			}
-			if e != nil {
-				r.Emit("error", "what", e.Error())
-				return
+				e = eb.Publish(sendCtx, v)
 			}
 			calls := pub.Calls()[before:]
-			topic, name, round := "", "", false
+			topic, name, round, marked, ctxok := "", "", false, false, false
 			if len(calls) >= 1 && len(calls[0].Msgs) == 1 {
 				topic = calls[0].Topic
-				name = m.NameFromMessage(calls[0].Msgs[0])
+				pm := calls[0].Msgs[0]
+				name = m.NameFromMessage(pm)
 				out := c15New(cs, t)()
-				round = m.Unmarshal(calls[0].Msgs[0], out) == nil && c15Equal(out, v)
+				round = m.Unmarshal(pm, out) == nil && c15Equal(out, v)
+				marked = pm.Metadata.Get("hooked") == "1"
+				ctxok = pm.Context().Value(c15CtxKey{}) == which
 			}
-			r.Emit("bus", "calls", len(calls), "topic", topic, "name", name, "exptopic", topicOf(m.Name(v))+"/"+c15Shard(v), "expname", m.Name(v), "roundtrip", round)
+			r.Emit("bus", "calls", len(calls), "topic", topic, "name", name, "exptopic", topicOf(m.Name(v))+"/"+c15Shard(v), "expname", m.Name(v), "roundtrip", round,
+				"hook", hookMode, "marked", marked, "ctxok", ctxok, "err", e != nil)
 		}
 	}
 	r.NonTrivial = len(cs.Registry) >= 2
